@@ -104,7 +104,7 @@ static inline void rg_env(void)
   if(G.quiet)
   {
     /* enabledness lemmas (C02): no interference during this one evaluation; ASSUME[protocol c]: counter not saturated */
-    __CPROVER_assume(T_S(g_word->v) < S_MAX);
+    __CPROVER_assume(T_S(g_word->v) < S_MAX && G.commits < (1UL << 62));
     return;
   }
   uint64_t o = g_word->v;
